@@ -103,6 +103,24 @@ func TestC15(t *testing.T) {
 			c := ci.(*bridge.Case)
 			it := bridge.NewInterp(c, "C15")
 			it.NoHash = true
+			// the chain was itself initialised from a genesis (the one the configuration describes): what it exports right
+			// away must be that genesis again, as far as params and the token list go
+			{
+				given := it.H.GenesisState()
+				var got mtypes.GenesisState
+				it.H.Cdc.MustUnmarshalJSON(mhub2.NewAppModule(it.H.K, it.H.Bank).ExportGenesis(it.H.GenesisCtx(), it.H.Cdc), &got)
+				if got.Params == nil || !got.Params.Equal(*given.Params) {
+					return pbt.Failf("state-not-preserved:Params", "a chain initialised from a genesis exports other params than it was given")
+				}
+				if got.TokenInfos == nil || len(got.TokenInfos.TokenInfos) != len(given.TokenInfos.TokenInfos) {
+					return pbt.Failf("state-not-preserved:TokenInfos", "a chain initialised from a genesis with %d tokens exports another token list", len(given.TokenInfos.TokenInfos))
+				}
+				for i, want := range given.TokenInfos.TokenInfos {
+					if g := got.TokenInfos.TokenInfos[i]; g.String() != want.String() {
+						return pbt.Failf("state-not-preserved:TokenInfos", "token %d was given to the genesis as %v and is exported as %v", want.Id, want, g)
+					}
+				}
+			}
 			it.Run()
 			if it.Failed() {
 				rec.Label("stopped-by:" + it.FailedKey())
